@@ -67,14 +67,14 @@ def seq_rule(c):
     """every emitted packet - encrypted or not - advances the counter by exactly one mod 2^32; the one exception is
     RFC-extension strict kex (the Terrapin counter-measure): NEWKEYS resets it to 0, also at the FIRST key exchange,
     when NEWKEYS itself still goes out unencrypted"""
+    # other emissions of this activation (a rekey start, the leading IGNORE), whatever stub models them
+    others = [x for x in c.calls() if x['key'] in ('self._send_kexinit', 'self.send_packet')]
     if not c11.own_sends(c):
-        return c.new('_send_seq') == c.old('_send_seq') if not (
-            c.events('send_kexinit') or c.events('nested_send') or c.events('nested_send_started_kex')) \
-            else z3.BoolVal(True)
+        return c.new('_send_seq') == c.old('_send_seq') if not others else z3.BoolVal(True)
     base = emission_seq(c)
     conj = [z3.BoolVal(len(c.events('wire')) == 1),
             c.new('_send_seq') == z3.If(z3.And(c.arg('pkttype') == 21, c.old('_strict_kex')), 0, (base + 1) % U32)]
-    if not (c.events('send_kexinit') or c.events('nested_send') or c.events('nested_send_started_kex')):
+    if not others:
         # nothing else was emitted by this activation: the number used is the counter's value on entry
         conj.append(base == c.old('_send_seq'))
     return z3.And(conj)
@@ -302,12 +302,29 @@ def hdr_requires(c):
     return z3.And(c.old('_recv_blocksize') >= 8, c.old('_recv_seq') >= 0, c.old('_recv_seq') < 2 ** 32)
 
 
+def header_reads_only_its_block(c):
+    """(ii) the step is a function of (state, the one block it consumes): the staged header is that block (or what
+    decrypt_header made of exactly that block under the receive counter), the length is its first field"""
+    bs = c.old('_recv_blocksize')
+    if z3.is_false(z3.simplify(z3.Length(c.old('_inpbuf')) >= bs)):
+        return z3.BoolVal(True)
+    block = z3.Extract(c.old('_inpbuf'), 0, bs)
+    dh = c.calls('decrypt_header')
+    if not dh:
+        return z3.Implies(c.result, z3.And(c.is_none(c.oldv('_recv_encryption')), c.new('_packet') == block))
+    a, r = dh[0]['args'], dh[0]['ret']
+    return z3.And(z3.BoolVal(len(dh) == 1), z3.Not(c.is_none(c.oldv('_recv_encryption'))),
+                  a[0].z == c.old('_recv_seq'), a[1].z == block, a[2].z == 4,
+                  c.new('_packet') == r.items[0].z, c.new('_pktlen') == unbe(r.items[1].z))
+
+
 recv_pkthdr = Spec(
     'C02', 'connection', 'SSHConnection._recv_pkthdr', self_class='SSHConnection', classes=CONN_CLASSES,
     stubs={'self._recv_encryption.decrypt_header': ret('tuple[bytes,bytes]', 'hdr',
                                                        assume=lambda cx, v: z3.Length(v.items[1].z) == 4)},
     requires=hdr_requires,
     ensures=[
+        ('header-step-reads-only-its-own-block', header_reads_only_its_block),
         ('incomplete-header-consumes-nothing', lambda c: z3.Implies(
             z3.Length(c.old('_inpbuf')) < c.old('_recv_blocksize'),
             z3.And(z3.Not(c.result), c.new('_inpbuf') == c.old('_inpbuf'),
@@ -330,6 +347,36 @@ recv_pkthdr = Spec(
 
 def need(c):
     return 4 + c.old('_pktlen') + c.old('_recv_macsize') - c.old('_recv_blocksize')
+
+
+def packet_reads_only_its_bytes(c):
+    """(ii) the step is a function of (state, the `need` bytes it consumes): body and MAC handed to the cipher are
+    slices of exactly those bytes - never of whatever else happens to be buffered behind them - and the payload that
+    reaches a handler is derived from the staged header block and those bytes only"""
+    buf, rem, msz = c.old('_inpbuf'), need(c), c.old('_recv_macsize')
+    dec = [x for x in c.calls() if x['key'].endswith('decrypt_packet')]
+    conj = []
+    if dec:
+        a = dec[0]['args']
+        conj += [z3.BoolVal(len(dec) == 1), a[0].z == c.old('_recv_seq'), a[1].z == c.old('_packet'),
+                 a[2].z == z3.Extract(buf, 0, rem - msz), a[3].z == 4, a[4].z == z3.Extract(buf, rem - msz, msz)]
+    for _n, ev in c.events('process_packet'):
+        packet = ev[-1]
+        payload = c.new_state.rec(packet).fields['_packet']
+        comp = [x for x in c.calls() if x['key'].endswith('.decompress')]
+        src = comp[0]['args'][0] if comp else payload
+        if comp:
+            conj.append(to_z3(payload, 'bytes') == comp[0]['ret'].val.z)
+        if dec:
+            plain = dec[0]['ret'].val.z
+        else:
+            plain = z3.Concat(z3.Extract(c.old('_packet'), 4, z3.Length(c.old('_packet')) - 4),
+                              z3.Extract(buf, 0, rem - msz))
+        padlen = plain[0]
+        # RFC 4253 6: payload = packet[1 : len - padding_length] (padding_length 0 is malformed; Python's [1:-0])
+        conj.append(z3.If(padlen == 0, z3.Length(to_z3(src, 'bytes')) == 0,
+                          to_z3(src, 'bytes') == z3.Extract(plain, 1, z3.Length(plain) - padlen - 1)))
+    return z3.And(conj) if conj else z3.BoolVal(True)
 
 
 recv_packet_framing = Spec(
@@ -361,14 +408,241 @@ recv_packet_framing = Spec(
             z3.And(z3.Length(c.old('_inpbuf')) >= need(c), z3.BoolVal(c.raised is None)),
             c.new('_inpbuf') == z3.Extract(c.old('_inpbuf'), need(c), z3.Length(c.old('_inpbuf')) - need(c)))),
         ('payload-delivered-at-most-once', lambda c: z3.BoolVal(len(c.events('process_packet')) <= 1)),
+        ('packet-step-reads-only-its-own-bytes', packet_reads_only_its_bytes),
     ],
     raises={'MACError': True, 'CompressionError': True, 'ProtocolError': True, 'PacketDecodeError': True},
     returns='bool')
 
 
+# ------------------------------------------------------------------ segmentation: the composition argument
+# Abstract receive machine.  A receive state s (everything but the input buffer: handler, keys, counters, staged
+# header ...) and a buffer x determine whether a step is READY; a ready step consumes one UNIT u = x[:need(s, x)] and
+# moves to next(s, u), handing emit(s, u) (zero or one payload) to the dispatcher:
+#   (i)  not ready(s, x): the step returns False and changes nothing                       [no partial consumption]
+#   (ii) ready(s, x): 1 <= need(s, x) <= |x|; bytes behind the unit are irrelevant: ready(s, x ++ e) and
+#        need(s, x ++ e) == need(s, x) for every e; the successor state and what is delivered are functions of
+#        (s, u) only                                                                   [exactly its own bytes]
+# Instances (each proved on the real handler, clauses named below):
+#   _recv_version  ready = an LF among the first 8192 buffered bytes, need = its index + 1
+#                  (`line-consumed-exactly` / `no-line-consumes-nothing`; the line recorded is the unit, C03)
+#   _recv_pkthdr   ready = |x| >= _recv_blocksize, need = _recv_blocksize
+#                  (`incomplete-header-consumes-nothing`, `complete-header-consumes-exactly-one-block`,
+#                   `header-step-reads-only-its-own-block`)
+#   _recv_packet   ready = |x| >= rem, need = rem = 4 + _pktlen + _recv_macsize - _recv_blocksize
+#                  (`incomplete-packet-consumes-nothing`, `complete-packet-consumes-exactly-its-bytes`,
+#                   `packet-step-reads-only-its-own-bytes`, `payload-delivered-at-most-once`)
+# drain(s, x) = the result of running ready steps until none is ready - defined by well-founded recursion on |x|
+# (need >= 1), represented by three uninterpreted functions used through definitional instances only.
+#   _recv_data      proved: on an error-free run the pump computes drain(state, buffer)      (loop invariant)
+#   data_received   proved: the chunk is APPENDED and the pump run once: state' = drain(s, buf ++ data)
+#   lemma (extra_checks, induction on the number of steps, step case solver-checked):
+#                   drain(s, a ++ b) == drain(drain_state(s, a), drain_rest(s, a) ++ b), outputs concatenated
+# Hence data_received(a); data_received(b) and data_received(a ++ b) reach the same state and hand on the same
+# payload sequence, for every split: each payload exactly once, in order.
+RecvState = sort_of('opaque:RecvState')
+PayloadsS = z3.SeqSort(BytesS)
+step_ready = z3.Function('step_ready', RecvState, BytesS, BoolS)
+step_need = z3.Function('step_need', RecvState, BytesS, IntS)
+step_next = z3.Function('step_next', RecvState, BytesS, RecvState)
+step_emit = z3.Function('step_emit', RecvState, BytesS, PayloadsS)
+drain_state = z3.Function('drain_state', RecvState, BytesS, RecvState)
+drain_rest = z3.Function('drain_rest', RecvState, BytesS, BytesS)
+drain_out = z3.Function('drain_out', RecvState, BytesS, PayloadsS)
+
+
+def _unit(s, x):
+    return z3.Extract(x, 0, step_need(s, x))
+
+
+def _after(s, x):
+    return z3.Extract(x, step_need(s, x), z3.Length(x) - step_need(s, x))
+
+
+def drain_def(s, x):
+    """definitional instance of drain at (s, x)"""
+    r, s2, x2 = step_ready(s, x), step_next(s, _unit(s, x)), _after(s, x)
+    return [drain_state(s, x) == z3.If(r, drain_state(s2, x2), s),
+            drain_rest(s, x) == z3.If(r, drain_rest(s2, x2), x),
+            drain_out(s, x) == z3.If(r, z3.Concat(step_emit(s, _unit(s, x)), drain_out(s2, x2)), z3.Empty(PayloadsS))]
+
+
+def step_contract(s, x, e=None):
+    """(ii) for the buffer x (and the extension e)"""
+    n = step_need(s, x)
+    conj = [n >= 1, n <= z3.Length(x)]
+    if e is not None:
+        conj += [step_ready(s, z3.Concat(x, e)), step_need(s, z3.Concat(x, e)) == n]
+    return z3.Implies(step_ready(s, x), z3.And(conj))
+
+
+def abstract_step_stub(cx):
+    """self._recv_handler(): the abstract step contract (i)/(ii) over the ghost receive state.  Besides, a handler may
+    end the connection (returning False after _force_close, or raising): the ghost flag records it, nothing is
+    claimed about such a run (C10 / C01: a closed connection delivers nothing more)"""
+    s, x, out = cx.selff('ghost_rs').z, cx.selff('_inpbuf').z, cx.selff('ghost_out').z
+    r, u = step_ready(s, x), _unit(s, x)
+    took = Out(ret=VBool(z3.BoolVal(True)),
+               sets={'ghost_rs': VOpaque(step_next(s, u), 'RecvState'), '_inpbuf': VBytes(_after(s, x)),
+                     'ghost_out': VSeq(z3.Concat(out, step_emit(s, u)), 'bytes')},
+               assume=[r, step_contract(s, x)], event=('step', ()))
+    waits = Out(ret=VBool(z3.BoolVal(False)), assume=[z3.Not(r)], event=('wait', ()))
+
+    def dead():
+        return {'ghost_failed': VBool(z3.BoolVal(True)), '_inpbuf': cx.fresh('bytes', 'buf_after_error'),
+                'ghost_rs': cx.fresh('opaque:RecvState', 'state_after_error')}
+    code = cx.fresh('int', 'disc_code')
+    disc = VExc('DisconnectError', attrs={'code': code, 'reason': cx.fresh('str', 'disc_reason'),
+                                          'lang': cx.fresh('str', 'disc_lang')})
+    return [took, waits, Out(ret=VBool(z3.BoolVal(False)), sets=dead(), event=('fatal', ())),
+            Out(exc=disc, sets=dead(), event=('fatal', ())), Out(exc=VExc('Exception'), sets=dead(), event=('fatal', ()))]
+
+
+abstract_step_stub.modifies = ('ghost_rs', '_inpbuf', 'ghost_out', 'ghost_failed')
+
+PUMP_FIELDS = {'_inpbuf': 'bytes', '_recv_handler': 'tag', 'ghost_rs': 'opaque:RecvState',
+               'ghost_out': 'seq[bytes]', 'ghost_failed': 'bool'}
+
+
+def pump_inv(c):
+    s0, x0, o0 = c.at_entry('ghost_rs'), c.at_entry('_inpbuf'), c.at_entry('ghost_out')
+    s, x, o = c.new('ghost_rs'), c.new('_inpbuf'), c.new('ghost_out')
+    return z3.Or(c.new('ghost_failed'),
+                 z3.And(drain_state(s0, x0) == drain_state(s, x), drain_rest(s0, x0) == drain_rest(s, x),
+                        z3.Concat(o0, drain_out(s0, x0)) == z3.Concat(o, drain_out(s, x))))
+
+
+def drained(c, s0, x0):
+    """the state after the call is drain(s0, x0); what was handed on is the old output followed by drain_out"""
+    return z3.Or(c.new('ghost_failed'),
+                 z3.And(c.new('ghost_rs') == drain_state(s0, x0), c.new('_inpbuf') == drain_rest(s0, x0),
+                        c.new('ghost_out') == z3.Concat(c.old('ghost_out'), drain_out(s0, x0))))
+
+
+recv_data = Spec(
+    'C02', 'connection', 'SSHConnection._recv_data', self_class='SSHConnection',
+    classes={'SSHConnection': PUMP_FIELDS},
+    stubs={'self._reset_keepalive_timer': noop(), 'self._recv_handler': abstract_step_stub,
+           'self._send_disconnect': noop('closed'), 'self._force_close': noop('closed'),
+           'self.internal_error': noop('closed')},
+    loops={1: LoopSpec(header='self._inpbuf and self._recv_handler()',
+                       modifies=['_inpbuf', 'ghost_rs', 'ghost_out', 'ghost_failed'],
+                       invariant=pump_inv,
+                       lemmas=lambda c: drain_def(c.new('ghost_rs'), c.new('_inpbuf')))},
+    modifies=['_inpbuf', 'ghost_rs', 'ghost_out', 'ghost_failed'],
+    requires=lambda c: z3.Not(c.old('ghost_failed')),
+    lemmas=lambda c: drain_def(c.new('ghost_rs'), c.new('_inpbuf')) + [step_contract(c.new('ghost_rs'),
+                                                                                     c.new('_inpbuf'))],
+    ensures=[('pump-runs-every-ready-step-in-order-and-stops-only-when-none-is-ready',
+              lambda c: drained(c, c.old('ghost_rs'), c.old('_inpbuf')))],
+    raises={})
+
+data_received = Spec(
+    'C02', 'connection', 'SSHConnection.data_received', self_class='SSHConnection',
+    params=dict(data='bytes', datatype='none'), classes={'SSHConnection': PUMP_FIELDS},
+    stubs={'self._recv_data': contract_stub(lambda: recv_data)},
+    requires=lambda c: z3.Not(c.old('ghost_failed')),
+    ensures=[('chunk-is-appended-then-drained',
+              lambda c: drained(c, c.old('ghost_rs'), z3.Concat(c.old('_inpbuf'), c.arg('data'))))],
+    raises={})
+
+
+def segmentation_lemma():
+    """drain(s, a ++ b) == drain(drain_state(s, a), drain_rest(s, a) ++ b) with outputs concatenated.
+    Induction on the number of ready steps in a (well-founded: need >= 1 shortens the buffer).  Base (no step ready
+    on a): drain(s, a) = (s, a, []) by definition, both sides are the same term.  Step: checked below from the
+    definitional instances at (s, a), (s, a ++ b), the step contract (ii) for (s, a) with extension b and the
+    induction hypothesis for (next(s, u), a[n:], b)."""
+    from pyvc import solve
+    s = z3.Const('lemma_s', RecvState)
+    a, b = z3.Consts('lemma_a lemma_b', BytesS)
+    ab = z3.Concat(a, b)
+
+    def goal(s_, a_, b_):
+        s1, r1 = drain_state(s_, a_), z3.Concat(drain_rest(s_, a_), b_)
+        ab_ = z3.Concat(a_, b_)
+        return z3.And(drain_state(s_, ab_) == drain_state(s1, r1), drain_rest(s_, ab_) == drain_rest(s1, r1),
+                      drain_out(s_, ab_) == z3.Concat(drain_out(s_, a_), drain_out(s1, r1)))
+    hyp = drain_def(s, a) + drain_def(s, ab) + [step_contract(s, a, b)]
+    ih = z3.Implies(step_ready(s, a), goal(step_next(s, _unit(s, a)), _after(s, a), b))
+    out = []
+    for name, pc, g in (
+            ('C02.lemma#segmentation(base: no ready step in a)', hyp + [z3.Not(step_ready(s, a))], goal(s, a, b)),
+            ('C02.lemma#segmentation(step: one ready step then the induction hypothesis)',
+             hyp + [step_ready(s, a), ih], goal(s, a, b))):
+        smt2 = solve.to_smt2(pc, g)
+        v, why = solve._z3_try(smt2, 5000)
+        backend = 'z3'
+        if v == 'unknown':
+            v, why = solve._cvc5(smt2)
+            backend = 'cvc5'
+        # the hypotheses must be satisfiable (a vacuous lemma proves nothing)
+        chk = z3.Solver()
+        chk.set('timeout', 5000)
+        chk.add(*pc)
+        if v == 'proved' and chk.check() != z3.sat:
+            v, why = 'unknown', 'hypotheses not shown satisfiable'
+        out.append({'name': name, 'verdict': v, 'reason': why, 'backend': backend, 'replayed': True})
+    return out
+
+
+# ------------------------------------------------------------------ _recv_version as a step of that machine
+_LF, _CR = z3.Unit(z3.IntVal(10)), z3.Unit(z3.IntVal(13))
+_LINE_LIMIT = z3.Int('MAX_BANNER_LINE_LEN')
+
+
+def _window(c):
+    """the bytes bytes.find(b'\\n', 0, limit) looks at"""
+    buf = c.old('_inpbuf')
+    return z3.If(z3.Length(buf) <= _LINE_LIMIT, buf, z3.Extract(buf, 0, _LINE_LIMIT))
+
+
+def version_no_line(c):
+    """(i) no LF among the first 8192 buffered bytes: nothing is consumed, the step reports "not ready" """
+    if c.raised is not None:
+        return z3.BoolVal(True)
+    return z3.Implies(z3.Not(z3.Contains(_window(c), _LF)),
+                      z3.And(z3.Not(c.result), c.new('_inpbuf') == c.old('_inpbuf'),
+                             c.eq(c.newv('_recv_handler'), c.oldv('_recv_handler')),
+                             c.new('_client_version') == c.old('_client_version'),
+                             c.new('_server_version') == c.old('_server_version'),
+                             z3.BoolVal(len(c.events('send_kexinit')) == 0)))
+
+
+def version_line_consumed(c):
+    """(ii) otherwise exactly the first line and its LF are consumed - whatever follows stays, untouched"""
+    old, new = c.old('_inpbuf'), c.new('_inpbuf')
+    line = z3.Extract(old, 0, z3.Length(old) - z3.Length(new) - 1)
+    return z3.Implies(z3.Contains(_window(c), _LF),
+                      z3.And(z3.Length(new) < z3.Length(old), old == z3.Concat(line, _LF, new),
+                             z3.Not(z3.Contains(line, _LF))))
+
+
+recv_version = Spec(
+    'C02', 'connection', 'SSHConnection._recv_version', self_class='SSHConnection',
+    classes={'SSHConnection': {'_is_client': 'bool', '_inpbuf': 'bytes', '_client_version': 'bytes',
+                               '_server_version': 'bytes', '_kexinit_sent': 'bool', '_recv_handler': 'tag',
+                               '_banner_lines': 'int'}},
+    stubs=dict(ROLE_STUBS, **{'self._force_close': noop('force_close'), 'self.set_extra_info': noop(),
+                              'self._send_kexinit': noop('send_kexinit')}),
+    tags=['find-qf', 'lit-slice'],     # quantifier-free model of bytes.find, x[:-1] -> len(x)-1 (solver help only)
+    # as under C03: the limits are generalised to arbitrary positive values (replays patch the module constants)
+    globals={'_MAX_BANNER_LINE_LEN': VInt(_LINE_LIMIT),
+             '_MAX_VERSION_LINE_LEN': VInt(z3.Int('MAX_VERSION_LINE_LEN')),
+             '_MAX_BANNER_LINES': VInt(z3.Int('MAX_BANNER_LINES'))},
+    requires=lambda c: z3.And(_LINE_LIMIT >= 1, z3.Int('MAX_VERSION_LINE_LEN') >= 1, z3.Int('MAX_BANNER_LINES') >= 1),
+    always=[('no-line-consumes-nothing', version_no_line), ('line-consumed-exactly', version_line_consumed)],
+    raises={'UnicodeDecodeError': True}, returns='bool')
+recv_version.patch_globals = ['_MAX_BANNER_LINE_LEN', '_MAX_VERSION_LINE_LEN', '_MAX_BANNER_LINES']
+recv_version.feasible_timeout_ms = 150
+recv_version.cvc5_first = True
+recv_version.model_timeout_ms = 2500
+recv_version.lazy_byte_ranges = True
+
+
 # ------------------------------------------------------------------ cipher table is data: block sizes
 def extra_checks(tier, seed):
-    """The finite case split {8, 16} of the send block size rests on the registered cipher table (read as data)."""
+    """The finite case split {8, 16} of the send block size rests on the registered cipher table (read as data);
+    the segmentation lemma (see above)."""
     import ast
     from pyvc import extract
     mod = extract.get_module('crypto.cipher')
@@ -381,7 +655,7 @@ def extra_checks(tier, seed):
     ok = bool(sizes) and sizes <= {1, 8, 16}
     return {'lemmas': [{'name': 'C02.crypto.cipher._cipher_alg_list#block-sizes-in-{1,8,16}',
                         'verdict': 'proved' if ok else 'refuted', 'detail': sorted(sizes),
-                        'backend': 'data (AST literal)', 'replayed': True}]}
+                        'backend': 'data (AST literal)', 'replayed': True}] + segmentation_lemma()}
 
 
 # ------------------------------------------------------------------ send_newkeys: RFC 4253 7.2 letters / directions
@@ -479,12 +753,42 @@ def newkeys_framing(c):
                   c.new('_send_enchdrlen') == z3.If(etm_param(e, m), 1, 5))
 
 
+def newkeys_recv_framing(c):
+    """the framing staged for the peer's NEWKEYS (block size, MAC / tag size) follows the negotiated algorithms of
+    the RECEIVING direction: server->client on a client, client->server on a server"""
+    if c.raised is not None:
+        return z3.BoolVal(True)
+    isc = c.old('_is_client')
+    e = z3.If(isc, c.old('_enc_alg_sc'), c.old('_enc_alg_cs'))
+    m = z3.If(isc, c.old('_mac_alg_sc'), c.old('_mac_alg_cs'))
+    bs = enc_params(e, m, z3.IntVal(2))
+    return z3.And(c.new('_next_recv_blocksize') == z3.If(bs > 8, bs, 8),
+                  c.new('_next_recv_macsize') == enc_params(e, m, z3.IntVal(4)))
+
+
+NK_SNAPSHOT = ('_send_encryption', '_send_blocksize', '_send_enchdrlen', '_compressor', '_kex_complete')
+
+
+def newkeys_send_stub(cx):
+    """self.send_packet(...) inside send_newkeys; the ghost event snapshots the send-direction state at the call"""
+    snap = tuple(cx.selff(f) for f in NK_SNAPSHOT)
+    return [Out(ret=VNone, event=('send_packet', tuple(cx.args) + (snap,)))]
+
+
+newkeys_send_stub.modifies = ()
+
+
 def newkeys_order(c):
     """NEWKEYS goes out before the new send keys are installed and before _kex_complete is raised"""
     sends = [x for x in c.calls() if x['key'] == 'self.send_packet']
     ok = [z3.BoolVal(len(sends) >= 1)]
     if sends:
         ok.append(sends[0]['args'][0].z == 21)
+        # RFC 4253 7.3: NEWKEYS "is sent with the old keys and algorithms": at the call nothing of the sending
+        # direction has been switched yet and _kex_complete has not been raised
+        snap = c.events('send_packet')[0][1][-1]
+        for f, v in zip(NK_SNAPSHOT, snap):
+            ok.append(c.eq(v, c.oldv(f)))
     if c.raised is None:
         ok.append(c.is_none(c.newv('_kex')))
     return z3.And(ok)
@@ -501,7 +805,7 @@ send_newkeys = Spec(
         'get_encryption': get_encryption_stub,
         'get_compressor': ret('opt[obj:Compressor]', 'compressor'),
         'get_decompressor': ret('opt[obj:Decompressor]', 'decompressor'),
-        'self.send_packet': noop('send_packet'),
+        'self.send_packet': newkeys_send_stub,
         'self.set_extra_info': noop(),
         'self._waiter.cancelled': ret('bool', 'cancelled'),
         'self._waiter.set_result': noop('waiter_set'),
@@ -512,6 +816,7 @@ send_newkeys = Spec(
     requires=lambda c: z3.And(z3.Not(c.is_none(c.oldv('_kex'))), z3.Length(c.arg('h')) > 0),
     ensures=[('rfc4253-7.2-letters-and-directions', newkeys_keys),
              ('send-framing-follows-sending-direction', newkeys_framing),
+             ('staged-receive-framing-follows-receiving-direction', newkeys_recv_framing),
              ('kex-complete-after-newkeys', lambda c: z3.Or(
                  c.new('_kex_complete'),
                  # the early return for a connect() waiting only for the key exchange
